@@ -13,8 +13,10 @@ v2 = {"top": {"all": "true", "mockname": Q("M@top"), "with-expecter": "true", "q
       "pkgA": {"dir": Q("d@pkgA"), "unroll-variadic": "false"},
       "ifaceI": {"exclude": Q(["x", "y: z"])}, "e1": {"mockname": Q("One")}, "e2": {"mockname": Q("Two"), "mock-build-tags": Q("a || b")},
       "ifaceJ": {}, "pkgB": {"recursive": "true"}}
-case = {"fam": "single", "shape": "full", "vi": 1, "nm": {"id": "-", "pos": "pkg"}, "bad": "none", "v2": v2, "ok": True}
-evs, ob = c19.replay_case(ctx, run, 0, case, style="yaml", layout="flag")
+case = {"fam": "single", "shape": "full", "vi": 1, "nm": {"id": "-", "pos": "pkg"}, "bad": "none", "v2": v2, "ok": True,
+        "lay": {"cwd": "sibling", "cfg": "rel", "out": "samebase", "stale": True}, "outloc": "cwd:<input base name>"}
+evs, ob = c19.replay_case(ctx, run, 0, case, style="yaml")
+print(ob["argv"], "cwd", ob["cwd"], "changed", ob["migrate"]["changed"])
 print(ob["v3_text"])
 
 def check(e):
@@ -37,6 +39,9 @@ variant("migrate exit 1", lambda e: e[1].update(exit=1))
 variant("migrate panicked", lambda e: e[1].update(panic=True))
 variant("input hash changed", lambda e: e[1].update(in_after="deadbeef"))
 variant("nothing written", lambda e: e[1].update(wrote=False))
+variant("written next to the v2 file instead", lambda e: e[1].update(changed=["other:legacy/.mockery.yaml.v3"]))
+variant("input overwritten as well", lambda e: e[1].update(changed=["input"] + e[1]["changed"]))
+variant("a second file touched", lambda e: e[1].update(changed=e[1]["changed"] + ["other:proj/x"]))
 variant("structname at top has another value", lambda e: e[1]["v3"]["top"].update(structname=Q("X")))
 variant("structname missing at e2", lambda e: e[1]["v3"]["e2"].pop("structname") and None)
 variant("unroll-variadic moved from pkgA to top", lambda e: (e[1]["v3"]["top"].update({"template-data.unroll-variadic": e[1]["v3"]["pkgA"].pop("template-data.unroll-variadic")})))
